@@ -186,6 +186,14 @@ def epochStep (e : Epoch) (now : Int) : Epoch × Bool :=
     ({ e with count := e.count + 1, cur := e.cur + e.dur }, true)
   else (e, false)
 
+/-- the clock of one duration driven through any sequence of block times; the number says how often the duration's gauges
+were triggered -/
+def runEpoch (e : Epoch) : List Int → Epoch × Nat
+  | [] => (e, 0)
+  | now :: rest =>
+    let r := runEpoch (epochStep e now).1 rest
+    (r.1, r.2 + (if (epochStep e now).2 then 1 else 0))
+
 /-! ## Share computation -/
 
 def TWO53 : Int := 9007199254740992
